@@ -259,6 +259,32 @@ class Gen:
             if r.random() < 0.15:
                 alphabet += "\u00e9\u30a2\u00a9"      # characters without an ASCII byte: they emit nothing and must occupy nothing
             return [{"k": "ascii", "t": "".join(r.choice(alphabet) for _ in range(r.randint(0, 12)))}]
+        if kind == "table":
+            name = f"tab{len(self.tables)}.tbl"
+            entries = []
+            used = set()
+            for t in r.sample(["a", "b", "c", "ab", "abc", "X", " ", "0", "ba", "Xa", "cab"], r.randint(2, 8)):
+                code = bytes(r.randrange(256) for _ in range(r.choice([1, 1, 2])))
+                if code in used:
+                    continue
+                used.add(code)
+                entries.append([code.hex(), t])
+            self.tables[name] = entries
+            fr.has_table = True
+            return [{"k": "table", "f": name}]
+        if kind == "text":
+            if not any(getattr(f, "has_table", False) for f in fr.chain()):
+                return None
+            return [{"k": "text", "t": "".join(r.choice("abcX 0q[]") for _ in range(r.randint(0, 10))).replace("[", "[0x4").replace("]", "1]") if r.random() < 0.3
+                     else "".join(r.choice("abcX 0q") for _ in range(r.randint(0, 10)))}]
+        if kind == "include":
+            fname = self.name("incf") + ".s"
+            body = self.flat_body(fr, r.randint(1, 3))
+            if pending_labels and r.random() < 0.5:
+                lab = pending_labels.pop(0)      # an included file opens no scope: its labels belong to the including scope
+                fr.labels_done.append(lab)
+                body.insert(r.randint(0, len(body)), {"k": "label", "n": lab})
+            return [{"k": "include", "f": fname, "b": body}]
         if kind == "org":
             if fr.in_macro or fr.in_loop:
                 return None
